@@ -14,7 +14,7 @@ PROP = "C10"
 RULE = ("Metamorphic / differential: a decomposition-independent logical program (schema, attributes, blocking writes and reads of "
         "boxes through vara/vars/varm/varn typed and flexible with non-contiguous buffers, nonblocking writes completed by wait_all, "
         "record growth, a redefinition adding a variable and an attribute, close/reopen) is executed under two configurations A and B "
-        "drawn from: k=1..4 (8 thorough) with different decompositions of every box, nc_header_align_size / nc_var_align_size / "
+        "drawn from: k=1..8 (quick: mostly 1..4) with different decompositions of every box, nc_header_align_size / nc_var_align_size / "
         "nc_record_align_size, nc_ibuf_size in {1, 64, default}, nc_in_place_swap in {auto, enable, disable} with request sizes on both "
         "sides of the 4096-byte threshold, nc_hash_size_*, nc_header_read_chunk_size, romio_no_indep_rw, nc_num_aggrs_per_node 0..k, "
         "safe mode, hints through MPI_Info or PNETCDF_HINTS.  Oracle: per logical request the return codes agree, reassembled read "
@@ -29,7 +29,8 @@ BIGN = 1300      # a 1-D double variable of this length: whole-variable requests
 
 @st.composite
 def config(draw, kmax=4):
-    k = draw(st.integers(1, kmax))
+    # quick: mostly 1..4 ranks (4-rank pools), now and then 5..8 (group sizes that do not divide the node: F52)
+    k = draw(st.integers(1, kmax)) if kmax > 4 else draw(st.sampled_from([1, 2, 3, 4, 1, 2, 3, 4, 2, 3, 4, 5, 7, 8]))
     h = {}
     if G.chance(draw, 50):
         h["nc_var_align_size"] = str(draw(st.sampled_from([1, 4, 8, 64, 512, 4096])))
